@@ -219,6 +219,18 @@ def stepRow (e : Expr) (flags : Option TextFlags) (isBool : Bool) (cells : List 
   let xModelled := svOk && xM.isSome
   let xLine := if xModelled then ["x", cellOf (xM.getD .null)] else implLine impl "x"
   let xOpt : Option (Value Float) := if xModelled then xM else (implOpt impl "x").getD none
+  -- k: sibling expressions a + b, a - b, a * b, b - a through the same caches
+  let sibs : List Expr := [.arith .add (.col ['a']) (.col ['b']), .arith .sub (.col ['a']) (.col ['b']),
+    .arith .mul (.col ['a']) (.col ['b']), .arith .sub (.col ['b']) (.col ['a'])]
+  let kImpl := (implLine impl "k").drop 1
+  let numeric : Option (Value Float) → Bool := fun o => match o with | some (.num _) => true | _ => false
+  let bothNum := numeric (lookup ['a'] row) && numeric (lookup ['b'] row)
+  let kLine := "k" :: (sibs.zip (kImpl ++ List.replicate 4 "?")).map fun (se, tok) =>
+    if bothNum then (match xl envF row true se with | some v => cellOf v | none => tok) else tok
+  let kFail : List (String × String) :=
+    if bothNum && (sibs.zip kImpl).any (fun (se, tok) =>
+        match sqlValue envF row se with | .ok v => !(sameCell (cellOf v) tok) | .bad _ => false)
+    then [("sibling-value", "none")] else []
   -- r
   let rLine := match flags with
     | some fl => if parses then ["r", cellOf (engineSelect (routeOf fl) hOpt xOpt)] else implLine impl "r"
@@ -234,21 +246,24 @@ def stepRow (e : Expr) (flags : Option TextFlags) (isBool : Bool) (cells : List 
   let rFail : List (String × String) := match sv, rImpl with
     | .ok v, [_, c] =>
       -- `sameObs` on canonical cells (zero sign and NaN payload are not observed)
+      -- a deviation is explained by a recorded class only if the model reproduces it
       if sameCell (cellOf v) c then [] else
-        [("select-value", if !parses then "not-operator" else if bridgeFirst && !nonnull then "null-operand-exprlang" else "none")]
+        [("select-value", if !parses then "not-operator"
+          else if bridgeFirst && !nonnull && rLine == rImpl then "null-operand-exprlang" else "none")]
     | .ok _, _ => [("select-value", "none")]
     | .bad _, _ => []
   let wFail : List (String × String) := if !isBool then [] else
     match sqlKeeps envF row e, wImpl with
     | some b, [_, c] => if c = boolTok b then [] else
-        [("where-keeps", if !noCase e then "case-in-where" else if !nonnull then "null-operand-exprlang" else "none")]
+        [("where-keeps", if !noCase e then "case-in-where"
+          else if !nonnull && wLine == wImpl then "null-operand-exprlang" else "none")]
     | _, _ => []
   let tags :=
     [if svOk then (if nonnull then "row-nonnull" else "row-null-touched") else "row-outside-fragment"] ++
     (if parses then [] else ["echo-not-operator"]) ++
     (if xModelled then ["x-table"] else ["x-echo"]) ++
     [routeTag flags]
-  { obs := [hLine, xLine, rLine, wLine], fails := rFail ++ wFail, tags := tags }
+  { obs := [hLine, xLine, kLine, rLine, wLine], fails := rFail ++ wFail ++ kFail, tags := tags }
 
 /-! ### a direct function call -/
 
@@ -269,7 +284,10 @@ def stepFn (f : String) (args : List String) (impl : List (List String)) : RowOu
       | some v => [["v", cellOf v]]
       | none => [["err"]]
     else impl
-  { obs := line, fails := if panicked then [("fn-panic", "none")] else [],
+  { obs := line,
+    fails := (if panicked then [("fn-panic", "none")] else []) ++
+      -- for the transliterated functions the table is the documented value
+      (if okArgs && modelled fname && line != impl then [("fn-value", "none")] else []),
     tags := [if okArgs && modelled fname then "fn-table" else "fn-echo"] }
 
 def cfgOf (c : Case) (k : String) : Option (List String) :=
